@@ -154,14 +154,16 @@ def gen_item(tier, rng):
     # (1) every chain of length <= 2 over the whole table, on values from the fixed list
     chains = [()] + [(m,) for m in MODS] + [(a, b) for a in MODS for b in MODS]
     for ch in chains:
-        vals = rng.sample(FIXED_VALUES, 3) if quick else FIXED_VALUES
+        vals = rng.sample(FIXED_VALUES, 3 if quick else 12)
         for v in vals:
             out.append(mk("f", ch, v))
     # (2) exhaustive small strings for the string-level modifiers
-    k_main = 3 if quick else 4
     for m in ("windash", "expand"):
-        for s in small_strings(ALPHA, k_main):
+        for s in small_strings(ALPHA, 3):
             out.append(mk("f", [m], S(s)))
+        if not quick:   # length 4 over the characters that matter for the two scanners
+            for t in itertools.product(['a', '*', '\\', '%', '-', '/', ' ', '\u2013'], repeat=4):
+                out.append(mk("f", [m], S("".join(t))))
     for s in small_strings(ALPHA + RE_EXTRA, 2 if quick else 3):
         out.append(mk("f", ["re"], S(s)))
     ss2 = small_strings(ALPHA, 2)
@@ -182,7 +184,7 @@ def gen_item(tier, rng):
         for ch in itertools.product(MODS, repeat=3):
             out.append(mk("f", ch, vals3[rng.randrange(len(vals3))]))
     # (3) random: biased towards admissible chains, lengths 1..4, random values, with / without field
-    for _ in range(1500 if quick else 40000):
+    for _ in range(1500 if quick else 15000):
         v = rand_value(rng)
         first = (v["list"][0] if v.get("list") else None) if "list" in v else v
         kind = "other"
@@ -191,18 +193,16 @@ def gen_item(tier, rng):
         ch = sensible_chain(rng, kind, rng.randint(1, 4))
         out.append(mk(rng.choice(["f", "f", "f", "", None, "Ünï"]), ch, v))
     # (4) random: uniform chains of length 3..4 from the full table (mostly inadmissible)
-    for _ in range(300 if quick else 8000):
+    for _ in range(300 if quick else 4000):
         out.append(mk("f", [rng.choice(MODS) for _ in range(rng.randint(3, 4))], rand_value(rng)))
     # (5) dash / percent heavy random strings for windash and expand, alone and combined
     dash_alpha = ['-', '/', 'a', ' ', '_', '*', 'é', '\u2013', '-', '/']
     pct_alpha = ['%', '\\', 'a', 'b', '%', '*', ' ', '\\']
-    for _ in range(400 if quick else 10000):
+    for _ in range(400 if quick else 5000):
         out.append(mk("f", rng.choice([["windash"], ["windash", "contains"], ["cased", "windash"], ["windash", "all"]]),
                       S(rand_str(rng, 10, dash_alpha))))
         out.append(mk("f", rng.choice([["expand"], ["expand", "contains"], ["re", "expand"], ["expand", "windash"]]),
                       S(rand_str(rng, 10, pct_alpha))))
-    for c in out:
-        if c["key"] is None and False: pass
     return out
 
 
@@ -308,9 +308,21 @@ def cyv(x):
     return "YOther"
 
 
+def b64_left_to_c04(case):
+    """base64 / base64offset on strings with non-ASCII characters or backslashes: the byte form of such values
+    (character vs byte count, escaped wildcards) is the subject of property C04 and of its repairs (D7, D8);
+    C03 does not pin it down"""
+    ids = ids_of(case)
+    if "base64" in ids or "base64offset" in ids:
+        return any("s" in x and (not x["s"].isascii() or "\\" in x["s"]) for x in scalars(case))
+    return False
+
+
 def item_to_coq(case, r):
     if re_unmodelled(case):
         return None          # regular-expression syntax outside the modelled fragment of re.compile
+    if b64_left_to_c04(case):
+        return None
     key = copt(cstr(case["key"]) if case["key"] is not None else None)
     v = case["val"]
     yin = f"(YMany {clist(cyv(x) for x in v['list'])})" if "list" in v else f"(YOne {cyv(v)})"
@@ -366,8 +378,8 @@ PROPERTY = Property(
     suites=[Suite("item", gen_item, "run_item", REQ, "judge_item", item_to_coq, known=known_item, mutate=mutate_item,
                   stratum=stratum_item, shard=400)],
     rule="SigmaDetectionItem.from_mapping(key, value): every modifier chain of length <= 2 over the 33-entry table on fixed values "
-         "(quick: 3 sampled values per chain, thorough: all 27), exhaustive strings over {a B * ? \\ % - / space e-acute en-dash} up to "
-         "length 3 (quick) / 4 (thorough) under windash and expand, up to 2 / 3 (plus . ^ $ +) under re, all length-3 chains (thorough), "
+         "(quick: 3, thorough: 12 sampled values per chain out of 27), exhaustive strings over {a B * ? \\ % - / space e-acute en-dash} up to "
+         "length 3 (thorough: plus length 4 over 8 of them) under windash and expand, up to 2 / 3 (plus . ^ $ +) under re, all length-3 chains (thorough), "
          "random chains of length 1..4 (biased to admissible and uniform) on random strings up to 12 incl. non-ASCII word / non-word "
          "characters, ints, floats, bools, null, lists up to 3, unsupported types; hostile list from DESIGN section 7. "
          "non-trivial = at least one modifier and a string with a special character, or a chain of length >= 2",
